@@ -46,6 +46,7 @@ REQUIRED = [
     "kind:client-iter",
     "kind:udp-client-recv",
     "kind:endpoint-send",
+    "kind:client-send-lock",
     "kind:async-iter",
     "timeouts_raised",
     "returned_in_time",
@@ -542,6 +543,76 @@ def scenario_send(ctx, rng: random.Random, T: float | None, retry: float, tag) -
         ctx.violation(f"{cat}:endpoint-send", f"[endpoint-send] T={T} retry={retry} blocks={blocks} -> {outcome} after {elapsed}: {why}", {"kind": "endpoint-send", "T": T, "retry": "inf" if retry == math.inf else retry, "blocks": blocks, "tag": tag})
 
 
+def scenario_client_send_lock(ctx, rng: random.Random, T: float | None, retry: float, tag) -> None:
+    """TCPNetworkClient.send_packet(timeout=T) while another thread holds the send lock until a scripted virtual time, over a
+    socket whose kernel buffer accepts bytes at scripted virtual times: lock wait + blocked writes share ONE budget"""
+    from easynetwork.clients.tcp import TCPNetworkClient
+
+    payload = "y" * 40
+    need = len(payload) + 1
+    held = rng.choice([0.25, 0.5, 1.0, 3.0])
+    blocks = []
+    acc = 0
+    while acc < need and len(blocks) < 5:
+        blocks.append((rng.choice([0.0, 0.25, 0.5, 1.0, 2.5]), rng.choice([5, 12, 41])))
+        acc += blocks[-1][1]
+    c, s_ = _tcp_pair()
+    fs = _GatedSocket(c.family, c.type, c.proto, fileno=c.detach())
+    s_.setblocking(False)
+    clock = vselect.VirtualClock()
+    world = _SendWorld(clock, fs)
+    t0 = clock.now
+    outcome = "?"
+    old_sel = base_selector.selectors
+    try:
+        with vselect.virtual_time(clock):
+            base_selector.selectors = _SelectorsShim(world)  # type: ignore[assignment]
+            try:
+                client = TCPNetworkClient(fs, StreamProtocol(StringLineSerializer()), retry_interval=retry)
+                fs.setup(clock, blocks)
+                vlock = VirtualLock(clock, t0 + held)
+                client._TCPNetworkClient__send_lock = _lock.ForkSafeLock(lambda: vlock)  # type: ignore[attr-defined]
+                ctx.count("lock_waits")
+                try:
+                    with cpu_guard(20):
+                        client.send_packet(payload, timeout=T)
+                    outcome = "ok"
+                except TimeoutError:
+                    outcome = "timeout"
+                except (Exception, HangDetected, faultsock.SpinDetected) as exc:  # noqa: BLE001
+                    outcome = f"exception {type(exc).__name__}: {exc}"
+            finally:
+                base_selector.selectors = old_sel
+            elapsed = clock.now - t0
+    finally:
+        s_.close()
+        try:
+            fs.close()
+        except OSError:
+            pass
+    # reference: the lock is free at `held`; the kernel accepts block i at max(now, open_i)
+    t = held
+    open_at = blocks[0][0]
+    accepted = 0
+    for i, (d, n) in enumerate(blocks):
+        t = max(t, open_at)
+        accepted += n
+        if accepted >= need:
+            break
+        open_at = t + (blocks[i + 1][0] if i + 1 < len(blocks) else 0.0)
+    t_complete = t
+    ctx.count("kind:client-send-lock")
+    if outcome == "timeout":
+        ctx.count("timeouts_raised")
+    elif outcome == "ok":
+        ctx.count("returned_in_time")
+    why = decide("client-send-lock", T, elapsed, outcome, t_complete, world)
+    ctx.case(T is not None, "client-send-lock", T, retry, held, tuple(blocks))
+    if why:
+        cat = "budget-exceeded" if "exceeds" in why else "zero-timeout-waits" if "zero timeout" in why else "false-timeout" if "TimeoutError although" in why else "late-return" if "returned although" in why else "other"
+        ctx.violation(f"{cat}:client-send-lock", f"[client-send-lock] T={T} retry={retry} lock held {held} blocks={blocks} -> {outcome} after {elapsed}: {why}", {"kind": "client-send-lock", "T": T, "retry": "inf" if retry == math.inf else retry, "held": held, "blocks": blocks, "tag": tag})
+
+
 def scenario_async_iter(ctx, rng: random.Random, T: float | None, tag) -> None:
     """AsyncClientRecvIterator: the sum over all __anext__ waits <= T (virtual loop; ElapsedTime reads the loop clock)"""
     from easynetwork.clients._iter import AsyncClientRecvIterator
@@ -646,6 +717,7 @@ def run_shard(params: dict, ctx) -> None:
         scenario_iter(ctx, rng, T, retry, tag)
         scenario_udp(ctx, rng, T if T is not None else 10.0, retry, tag)
         scenario_send(ctx, rng, T, retry, tag)
+        scenario_client_send_lock(ctx, rng, T, retry, tag)
         if it % 4 == 0:
             scenario_async_iter(ctx, rng, T, tag)
         if it == 0:
